@@ -242,6 +242,16 @@ def inject(r, cls, pick):
         owner = next(v for v, ts in list(tm.IN_VARS.items()) + list(tm.OUT_VARS.items()) if toks[i] in ts)
         others = [t for v, ts in list(tm.IN_VARS.items()) + list(tm.OUT_VARS.items()) if v != owner for t in ts]
         toks[i] = others[(pick // 7) % len(others)]
+        # half of the time: the term of a *later* conclusion is replaced by a term of an earlier concluded variable
+        concl = [j for j in idx if j > it]
+        if pick % 2 and len(concl) >= 2:
+            toks = seed_rule_tokens(r)
+            first_owner = next(v for v, ts in tm.OUT_VARS.items() if toks[concl[0]] in ts)
+            last_owner = next(v for v, ts in tm.OUT_VARS.items() if toks[concl[-1]] in ts)
+            if first_owner != last_owner:
+                toks[concl[-1]] = tm.OUT_VARS[first_owner][(pick // 3) % len(tm.OUT_VARS[first_owner])]
+            else:
+                toks[i] = others[(pick // 7) % len(others)]
     elif cls == "foreign_variable":
         # an input variable in the consequent (only output variables can be concluded on)
         idx = positions(lambda i, t: i > it and t in tm.OUT_VARS)
